@@ -374,15 +374,22 @@ func buildProbes() {
 	// 20. column-sensitive directives inside blocks and sub-controls
 	for _, d := range []string{"~8t|", "~&|", "~2&|"} {
 		add("abc~(" + d + "~)")
-		add("abc~[" + d + "~]", iv(0))
-		add("abc~:[k~;" + "m" + d + "~]", iv(1))
-		add("abc~@[~a" + d + "~]", iv(1))
-		add("abc~{~a" + d + "~}", lv(ints(1, 2)...))
-		add("abc~@{~a" + d + "~}", ints(1, 2)...)
-		add("abc~:{~a" + d + "~}", lv(lv(iv(1)), lv(iv(2))))
+		add("abc~["+d+"~]", iv(0))
+		add("abc~:[k~;"+"m"+d+"~]", iv(1))
+		add("abc~@[~a"+d+"~]", iv(1))
+		add("abc~{~a"+d+"~}", lv(ints(1, 2)...))
+		add("abc~@{~a"+d+"~}", ints(1, 2)...)
+		add("abc~:{~a"+d+"~}", lv(lv(iv(1)), lv(iv(2))))
 		add("abc~?", sv(d), lv(iv(1)))
 		add("abc~@?", sv(d))
-		add("abc~%~{~a" + d + "~}", lv(ints(1, 2)...))
+		add("abc~%~{~a"+d+"~}", lv(ints(1, 2)...))
+	}
+	for _, d := range []string{"~&x", "~2&x", "~0&x"} {
+		add("abc~%~(" + d + "~)")
+		add("abc~%~["+d+"~]", iv(0))
+		add("abc~%~{"+d+"~a~}", lv(ints(1, 2)...))
+		add("~a~?", sv("abc\n"), sv(d), lv(iv(1)))
+		add("~%~@?", sv(d))
 	}
 	// ~n~ inside blocks
 	add("~(a~2~~)")
